@@ -3,7 +3,7 @@
    numpy's global state).  `epochs` is a function of (pipeline, index-array state, store): equal seeds (equal
    streams) give equal orders in every epoch by functionality; the theorems below say which streams matter. *)
 From Coq Require Import List Arith Bool.
-Require Import LD.Shuffle LD.ShuffleProofs.
+Require Import LD.Shuffle LD.ShuffleProofs LD.ShuffleFreeze LD.ShuffleFreezeProofs.
 Import ListNotations.
 
 (* an epoch sequence depends only on the streams of the generators the pipeline's stages own, and leaves every
@@ -51,3 +51,13 @@ Theorem C13_lazy_apply_epoch_is_draw : forall g n sigma st st1 arrs k,
 Proof. exact apply_epoch_is_draw. Qed.
 Print Assumptions C13_lazy_apply_epoch_is_draw.
 (* ... and its copy(freeze=True) is a one-time shuffle: one fixed order forever (C13_shuffle_once_constant) *)
+
+(* frozen copies stay frozen: whatever happens afterwards - further epochs of the pipeline they were copied from, further
+   freezes, iterations over any copy - the order of an existing frozen copy never changes, and it is a permutation *)
+Theorem C13_frozen_stays_frozen : forall ops s c a, nth_error (frozen s) c = Some a -> nth_error (frozen (frun s ops)) c = Some a.
+Proof. exact frozen_stable. Qed.
+Theorem C13_frozen_is_permutation : forall n ops, Forall (fop_ok n) ops ->
+  Forall (fun a => Permutation.Permutation a (seq 0 n)) (frozen (frun (finit n) ops)).
+Proof. exact frozen_is_perm. Qed.
+Print Assumptions C13_frozen_stays_frozen.
+Print Assumptions C13_frozen_is_permutation.
